@@ -139,6 +139,8 @@ static void build_reference(State* st) {
     const CmdSpec* s = spec_for(r.outs[0]); r.flags = s ? s->flags : 0;
     if (s) { std::vector<std::string> x = split_words(s->extra_reads);
              // "one.h|two.h": which of the two the command includes depends on the current text of its first declared input (the source switched its #include)
+             // "d@0": read only while manifest variant 0 is in effect (the source stopped including it when the project was reorganised)
+             { std::vector<std::string> keep; for (size_t q = 0; q < x.size(); q++) { size_t at = x[q].find('@'); if (at == std::string::npos) keep.push_back(x[q]); else if (x[q][at + 1] - '0' == g_manifest_variant) keep.push_back(x[q].substr(0, at)); } x = keep; }
              for (size_t q = 0; q < x.size(); q++) { size_t bar = x[q].find('|'); if (bar == std::string::npos) continue; VFile* f0 = r.reads.empty() ? NULL : g_tree->find(r.reads[0]); bool second = f0 && f0->exists && (f0->content & 1); x[q] = second ? x[q].substr(bar + 1) : x[q].substr(0, bar); }
              for (size_t q = 0; q < x.size(); q++) { bool have = false; for (size_t z = 0; z < r.reads.size(); z++) have = have || r.reads[z] == x[q]; if (!have) r.reads.push_back(x[q]); }
              if (s->dyndep_text) r.flags |= 0; }
